@@ -62,7 +62,8 @@ Definition wmsg_eqb (a b : wmsg) : bool :=
 Definition exn_eqb (a b : exn) : bool :=
   match a, b with
   | XProtocolError, XProtocolError | XTransportLost, XTransportLost | XTypeError, XTypeError
-  | XAttributeError, XAttributeError | XException, XException | XNoObject, XNoObject | XKeyError, XKeyError => true
+  | XAttributeError, XAttributeError | XException, XException | XNoObject, XNoObject | XKeyError, XKeyError
+  | XSerializationError, XSerializationError | XPayloadExceeded, XPayloadExceeded => true
   | _, _ => false
   end.
 Definition cb_eqb (a b : cb) : bool :=
@@ -91,6 +92,7 @@ Fixpoint trace_eqb (a b : list (list out)) : bool :=
 (* ---- histories with future arguments named by "j-th returned future" ---- *)
 Inductive cop :=
 | COp (o : op) | CUnsub (j : N) | CUnreg (j : N) | CCancel (j : N)
+| CFail (e : exn) (a : cop)      (* the API call [a] while transport.send() raises e for the request message *)
 | CReact (j : N) (a : cop)       (* the callback that issues the API call [a] is attached to the j-th returned future *)
 | CInline (a : cop) (r : op).    (* API call [a]; the router message [r] is delivered re-entrantly from inside
                                     transport.send() of the request (loopback / in-process router links) *)
@@ -117,6 +119,7 @@ Fixpoint resolve (ret : list N) (c : cop) : option op :=
   | CUnsub j => match nth_error ret (N.to_nat j) with Some f => Some (AUnsubscribe f) | None => None end
   | CUnreg j => match nth_error ret (N.to_nat j) with Some f => Some (AUnregister f) | None => None end
   | CCancel j => match nth_error ret (N.to_nat j) with Some f => Some (ACancel f) | None => None end
+  | CFail e a => match resolve ret a with Some o => Some (AFail e o) | None => None end
   | CReact j a => match nth_error ret (N.to_nat j), resolve ret a with
                   | Some f, Some o => Some (AReact f o)
                   | _, _ => None
